@@ -17,6 +17,12 @@ CLAIMED = {
         "note": "Clause (c) compares only files whose path names one of the original packages (aggregate index files are not attributed). Clause (d) accepts any failing run. Snapshots are JSON renderings of the IR (every exported field, ordered-map order included).",
         "design_ref": "DESIGN.md §5 C07",
     },
+    "C18": {
+        "technique": "deterministic simulation: a monitor on every DeepCopy event of simulated pipeline runs (copy seam inserted by the instrumenter) plus node-by-node copying of fixture and generated IR graphs; reflective equality and disjointness-of-mutable-locations oracles; replay",
+        "text": "Every outermost DeepCopy call of real pipeline runs (with builders, veneers, converters) and every DeepCopy method reachable in 47 fixture graphs and in generated contexts is judged: copy equals receiver field by field; no slice array, map or pointer target is reachable from both through declared fields.",
+        "note": "Sharing that is only reachable through an `any` payload (Default, constant values, constraint args, hint values) is counted in evidence as unexploited_sharing and not raised: no transformation writes those in place (DESIGN.md §5 C18). nil and empty collections are treated alike.",
+        "design_ref": "DESIGN.md §5 C18",
+    },
     "C19": {
         "technique": "deterministic simulation: seeded operation histories (incl. re-entrant callbacks, FromMap under a scheduled map order) against a slice-of-pairs reference model, checked after every operation, shrunk and replayed",
         "text": "Seeded sampling of operation histories over the real orderedmap.Map with a reference model as oracle after every step. Sampling, not enumeration: a clean batch is evidence that no short history breaks the map, not a proof.",
